@@ -63,6 +63,21 @@ CLAIMED['C02'] = dict(
          'characters without pad characters at the ends',
     technique='contract-based deductive verification: real encode vs reference printer, round trip, fold lemmas, z3/cvc5')
 
+CLAIMED['C17'] = dict(
+    text='Deductive proof per provider callable (verification_scp, storage_scp, qr_find_scp, modality_work_list_scp, '
+         'qr_move_scp + _send_response, StorageCommitment.n_action / n_event_report through MessageDispatcherSCP): the real '
+         'function is executed symbolically with a request built by the real message constructor and symbolic message id '
+         '(16-bit range), UIDs and context id, the application handler returning any status or raising '
+         'EventHandlingError. Correlation (context id, Message ID Being Responded To, SOP class, SOP instance, response '
+         'type, status) is a precondition of send() proved at every call site (for every loop iteration via havoc of '
+         'what the loop body writes); `answered` is a postcondition on the ghost send counter.',
+    ref='4/C17',
+    note=TRUST + 'request SOP class equals the abstract syntax of its presentation context; handlers raise only '
+         'EventHandlingError; pydicom Dataset on command sets modelled as ordered tag map (pyvc/dsmodel.py); dsutils codecs '
+         'opaque; the C-STORE responses of the C-GET user are decided under C19',
+    technique='contract-based deductive verification: send() preconditions at call sites, symbolic execution of the '
+              'real providers, z3/cvc5')
+
 NOT_YET = {
 }
 
